@@ -106,6 +106,11 @@ class C04(Property):
         # the three renderers on explicit documents (deeply nested blocks, random balanced/unbalanced lists): no panic
         from .C13 import C13
         cases = C13.explicit_docs(rng, 30 if tier == "quick" else 300)
+        # one definition + line per arm of Message::render (conflict, only-once, suggestions, expected/got, ...)
+        for r in range(4 if tier == "quick" else 150):
+            for i, (tag, opts, argv, unset) in enumerate(gen.message_cases(rng)):
+                cases.append(Case("m%d_%di" % (r, i), opts, [], mode="invariant", tags={"role": "inv", "group": "m%d_%d" % (r, i)}))
+                cases.append(Case("m%d_%d" % (r, i), opts, argv, unset=unset, tags={"role": "parse", "group": "m%d_%d" % (r, i), "msg": tag}))
         k = 0
         while len(cases) < n:
             opts = self.gen_def(rng)
